@@ -395,7 +395,32 @@ func cmdRun(args []string) int {
 }
 
 // firstDiff describes the first position where two write traces differ.
+// normStores replaces the store identities ("tree:0xc0...", "db:0xc0...") in a
+// write trace by their order of first appearance: identities are addresses of
+// engine objects and differ between paths.
+func normStores(w []string) []string {
+	ids := map[string]int{}
+	out := make([]string, len(w))
+	for i, s := range w {
+		if k := strings.Index(s, ":0x"); k >= 0 && k < 12 {
+			end := k + 3
+			for end < len(s) && strings.ContainsRune("0123456789abcdef", rune(s[end])) {
+				end++
+			}
+			id, ok := ids[s[:end]]
+			if !ok {
+				id = len(ids)
+				ids[s[:end]] = id
+			}
+			s = fmt.Sprintf("%s#%d%s", s[:k], id, s[end:])
+		}
+		out[i] = s
+	}
+	return out
+}
+
 func firstDiff(a, b []string) string {
+	a, b = normStores(a), normStores(b)
 	n := len(a)
 	if len(b) < n {
 		n = len(b)
